@@ -12,6 +12,7 @@ import EinoV.Proofs.C02Compile
 import EinoV.Proofs.C02CompileWF
 import EinoV.Proofs.C02CompileWWF
 import EinoV.Proofs.C02Settled
+import EinoV.Proofs.C02EndWaits
 import EinoV.Proofs.C02Eager
 import EinoV.Proofs.C02Just
 import EinoV.Proofs.C02Complete
@@ -672,5 +673,23 @@ theorem workflow_return_means_ancestors_settled {V} (ops : ValOps V) (r : Runner
 /-- non-vacuity: in the diamond, `a` is a control ancestor of END (through `d`) -/
 example : EinoV.Engine.DagRun.AncEnd rDiamond "a" :=
   .step "a" "d" (.base "d" (by decide)) (by decide)
+
+open EinoV.Engine.DagRun in
+/-- **dag_end_is_never_a_task.** END is never among the tasks of a step (any runner, any mode, any
+    schedule): when END becomes ready the run returns its input. -/
+theorem dag_end_is_never_a_task {V} (ops : ValOps V) (r : Runner V) (sched : Sched V) (x : V) :
+    ∀ t, t ∈ (runS ops r sched x).trace.flatten → t.1 ≠ END :=
+  run_no_end_task ops r sched x
+
+open EinoV.Engine.DagRun in
+/-- **dag_returns_as_soon_as_end_is_enabled.** The dual of `dag_return_means_ancestors_settled`: a
+    run of a well-formed acyclic all-predecessor runner never goes on once END is enabled — at
+    every step it executes (`trace = … step :: older`, newest first), END is *not* enabled by the
+    completions of the older steps, under any fair completion schedule. -/
+theorem dag_returns_as_soon_as_end_is_enabled {V} (ops : ValOps V) (r : Runner V) (wf : DagWF r)
+    (wf2 : DagWF2 r) (sched : Sched V) (hf : sched.Fair) (x : V) (pre : Trace V) (step : List (Key × V))
+    (older : Trace V) (h : (runS ops r sched x).trace.reverse = pre ++ step :: older) :
+    ¬ Enabled r (histOf r x older) END :=
+  run_end_never_waits ops r wf wf2 sched hf x pre step older h
 
 end EinoV.C02
